@@ -561,7 +561,7 @@ func Generate(c *core.Ctx, rng *rand.Rand) (walks [][]json.RawMessage, keys []st
 		keep = 0.5
 	}
 	init := `{"st":{"r1":{"k1":{"a":0,"d":0},"k2":{"a":0,"d":0}},"r2":{"k1":{"a":0,"d":0},"k2":{"a":0,"d":0}},"r3":{"k1":{"a":0,"d":0},"k2":{"a":0,"d":0}}},"msgs":[]}`
-	maxWalks := 0
+	maxWalks := 6000 // thorough: a seeded sample of the covering walks (all of them: 29 000 walks x 5 implementations = 20 min of validation)
 	if c.Quick() {
 		maxWalks = 500
 		if Light {
